@@ -41,9 +41,18 @@ func checkC18(c *Check) {
 	addrOf := func(lo int64) func(c *Check, fn *ssa.Function, st *State, b *Expr) (bool, string) {
 		return func(c *Check, fn *ssa.Function, st *State, b *Expr) (bool, string) {
 			v := storedValue(fn, st)
-			ok := v != nil && v.Op == "ex" && isCallNamed(v.Args[0], "netip.AddrFromSlice")
+			// netip.AddrFromSlice(x) (ok discarded) or netip.AddrFrom4([4]byte(x)):
+			// both are "the address made of the first octets of x"
+			var src *Expr
+			switch {
+			case v != nil && v.Op == "ex" && isCallNamed(v.Args[0], "netip.AddrFromSlice"):
+				src = v.Args[0].Args[0]
+			case v != nil && isCallNamed(v, "netip.AddrFrom4") && len(v.Args) == 1 && v.Args[0].Op == "ld" && v.Args[0].Args[0].Op == "s2a":
+				src = v.Args[0].Args[0].Args[0]
+			}
+			ok := src != nil
 			if ok {
-				r, l, h := sliceParts(v.Args[0].Args[0])
+				r, l, h := sliceParts(src)
 				ok = r.Key == b.Key && h == nil
 				if lo == 0 {
 					ok = ok && l == nil
@@ -73,9 +82,16 @@ func checkC18(c *Check) {
 			recv := paramExpr(fn, 0)
 			as := c.P.loadField(st, recv, "AggregatorPathAttr", "AS")
 			ip := c.P.loadField(st, recv, "AggregatorPathAttr", "IP")
-			ok := as != nil && as.Key == be32At(b, 0).Key && ip != nil && ip.Op == "ex" && isCallNamed(ip.Args[0], "netip.AddrFromSlice")
+			var ipSrc *Expr
+			switch {
+			case ip != nil && ip.Op == "ex" && isCallNamed(ip.Args[0], "netip.AddrFromSlice"):
+				ipSrc = ip.Args[0].Args[0]
+			case ip != nil && isCallNamed(ip, "netip.AddrFrom4") && len(ip.Args) == 1 && ip.Args[0].Op == "ld" && ip.Args[0].Args[0].Op == "s2a":
+				ipSrc = ip.Args[0].Args[0].Args[0]
+			}
+			ok := as != nil && as.Key == be32At(b, 0).Key && ipSrc != nil
 			if ok {
-				r, l, h := sliceParts(ip.Args[0].Args[0])
+				r, l, h := sliceParts(ipSrc)
 				cv, isC := int64(0), false
 				if l != nil {
 					cv, isC = l.IsConst()
@@ -466,6 +482,9 @@ func (c *Check) setDecoders(rule string) {
 		apps := p.callsIn(fn, descIs("builtin:append"))
 		okA := len(apps) == 1 && inLoop(apps[0].Block())
 		adv := elementLoopAdvance(fn, s.step)
+		if !(okA && adv) && len(apps) == 0 && inPlaceElementLoop(fn, s.step) {
+			okA, adv = true, true
+		}
 		// unconditional append: the append's block dominates the back edge
 		c.require(okA && adv, rule, s.fn, "element loop", p.Pos(fn.Pos()), fmt.Sprintf("one unconditional append per %d-octet element, cursor advances by %d", s.step, s.step))
 	}
